@@ -43,8 +43,31 @@ type histOp struct {
 
 type mgrSpec struct {
 	batch     int
-	facs      []int
+	given     []int // WithFactories
+	enabled   []int // WithEnabled (nil: option not used)
+	oot       int   // factory handed over through WithOutOfTree, or -1
 	retention int
+}
+
+// facs is the factory map the manager ends up with.
+func (m mgrSpec) facs() []int {
+	var out []int
+	for _, f := range m.given {
+		if m.enabled == nil {
+			out = append(out, f)
+			continue
+		}
+		for _, e := range m.enabled {
+			if e == f {
+				out = append(out, f)
+				break
+			}
+		}
+	}
+	if m.oot >= 0 {
+		out = append(out, m.oot)
+	}
+	return out
 }
 
 // cancelPlan says when the context of a run is cancelled.
@@ -55,10 +78,11 @@ type cancelPlan struct {
 }
 
 type runSpec struct {
-	mgr   int
-	phase int
-	plan  cancelPlan
-	gateD time.Duration // delay between the wait hook and the opening of the gate
+	mgr     int
+	phase   int
+	plan    cancelPlan
+	gateD   time.Duration // delay between the wait hook and the opening of the gate
+	startGC int           // 1+r: started when run r is inside store.GC (0: started with its phase)
 }
 
 type scenario struct {
@@ -69,6 +93,7 @@ type scenario struct {
 	runs     []runSpec
 	procs    int
 	yieldAll bool
+	silent   bool // oracle-only scenario: uses the GC phase, which the machine does not cover
 }
 
 func (s *scenario) decls() []string {
@@ -84,7 +109,7 @@ func (s *scenario) decls() []string {
 	}
 	for r, rs := range s.runs {
 		m := s.mgrs[rs.mgr]
-		out = append(out, fmt.Sprintf("run %d %d %s", r, m.batch, csv(m.facs)))
+		out = append(out, fmt.Sprintf("run %d %d %s", r, m.batch, csv(m.facs())))
 	}
 	return out
 }
@@ -94,7 +119,7 @@ func (s *scenario) decls() []string {
 // did not fail.
 func (s *scenario) configured(m mgrSpec) map[int]bool {
 	out := map[int]bool{}
-	for _, fid := range m.facs {
+	for _, fid := range m.facs() {
 		f := s.facs[fid]
 		if !f.ok {
 			continue
@@ -155,6 +180,7 @@ type runState struct {
 	waitSeen         bool
 	drainedSeen      bool
 	returned         bool
+	started          bool
 	workers          []*worker
 	done             chan struct{}
 }
@@ -178,6 +204,9 @@ type world struct {
 	lastTry    int
 	failures   int
 	flags      map[string]bool
+	silent     bool // no protocol lines: the scenario uses code the machine does not cover (GC phase)
+	gcHolders  int  // Run goroutines holding the "garbage-collection" lock
+	gcHook     func(run int)
 }
 
 func (w *world) fail(class, msg string) {
@@ -189,8 +218,15 @@ func (w *world) fail(class, msg string) {
 	w.r.Fail(class, fmt.Sprintf("%s | seed=%d scenario=%d: %s", msg, w.seed, w.idx, txt))
 }
 
+// op writes one protocol line (unless the scenario is oracle-only).
+func (w *world) op(line, out string) {
+	if !w.silent {
+		w.r.Op(line, out, true)
+	}
+}
+
 func (w *world) stray(what string) {
-	w.r.Op("stray "+what, "stray", true)
+	w.op("stray "+what, "stray")
 	w.r.Count("stray")
 }
 
@@ -224,7 +260,7 @@ func (w *world) workerOf(inst int, what string) *worker {
 
 // emit writes one worker event; the model answers the same line. Caller holds w.mu.
 func (w *world) emit(wk *worker, kind, out string) {
-	w.r.Op(fmt.Sprintf("%s %d %d", kind, wk.run, wk.inst), out, true)
+	w.op(fmt.Sprintf("%s %d %d", kind, wk.run, wk.inst), out)
 	rs := w.runs[wk.run]
 	rs.workerEvents++
 	if p := rs.spec.plan; p.kind == "event" && rs.workerEvents == p.n {
@@ -252,7 +288,7 @@ func (w *world) cancelLocked(rs *runState) {
 	}
 	rs.openAtCancel = rs.lastHook == "acquire"
 	rs.cancel()
-	w.r.Op(fmt.Sprintf("cancel %d", rs.id), "ok", true)
+	w.op(fmt.Sprintf("cancel %d", rs.id), "ok")
 	w.r.Count("cancel:" + rs.spec.plan.kind)
 }
 
@@ -346,7 +382,7 @@ func (w *world) hook(site, key string) {
 		}
 	}
 	rs.lastHook = ev
-	w.r.Op(fmt.Sprintf("%s %d", ev, r), "ok", true)
+	w.op(fmt.Sprintf("%s %d", ev, r), "ok")
 	rs.hookCount[ev]++
 	if p := rs.spec.plan; p.kind == "hook" && p.site == ev && rs.hookCount[ev] == p.n {
 		w.cancelLocked(rs)
@@ -358,7 +394,7 @@ func (w *world) begin(rs *runState) {
 		return
 	}
 	rs.begun = true
-	w.r.Op(fmt.Sprintf("begin %d", rs.id), fmt.Sprintf("begin %d", rs.setStatus), true)
+	w.op(fmt.Sprintf("begin %d", rs.id), fmt.Sprintf("begin %d", rs.setStatus))
 }
 
 // ---- lock source wrapper --------------------------------------------------------
@@ -384,7 +420,21 @@ func (l *lockSrc) TryLock(ctx context.Context, key string) (context.Context, con
 	if _, isRun := w.runOfGo[g]; isRun {
 		// the garbage-collection lock taken by Run itself: not part of the machine
 		w.r.Count("gc:trylock")
-		return l.real.TryLock(ctx, key)
+		w.lastTry = 0
+		c, f := l.real.TryLock(ctx, key)
+		if w.lastTry != 1 {
+			return c, f
+		}
+		w.gcHolders++
+		var once sync.Once
+		return c, func() {
+			once.Do(func() {
+				w.mu.Lock()
+				w.gcHolders--
+				w.mu.Unlock()
+			})
+			f()
+		}
 	}
 	r, okr := ctx.Value(runKey{}).(int)
 	inst, oki := w.lastName[g]
@@ -415,6 +465,24 @@ func (l *lockSrc) TryLock(ctx context.Context, key string) (context.Context, con
 	}
 	if !w.sc.configured(rs.mgr)[inst] {
 		w.fail("", fmt.Sprintf("unconfigured-updater-started run=%d updater=%s", r, key))
+	}
+	if wk.lock == "busy" {
+		holder := false
+		for _, ors := range w.runs {
+			for _, o := range ors.workers {
+				if o.sc.name == wk.sc.name && o.lock != "busy" && !o.doneSeen {
+					holder = true
+				}
+			}
+		}
+		switch {
+		case holder:
+		case wk.sc.name == 1 && w.gcHolders > 0:
+			// the garbage-collection lock of a concurrent Run shares the updaters' key space
+			w.fail("gc-lock-name-collision", fmt.Sprintf("updater-named-garbage-collection-skipped-while-another-Run-collects-garbage run=%d", r))
+		default:
+			w.fail("", fmt.Sprintf("configured-updater-skipped-although-no-same-name-updater-holds-the-lock run=%d updater=%s", r, key))
+		}
 	}
 	w.worker[g] = wk
 	w.byKey[[2]int{r, inst}] = wk
@@ -481,7 +549,7 @@ func (w *world) ret(rs *runState, err error, panicked bool) {
 	if panicked {
 		out = "panic"
 	}
-	w.r.Op(fmt.Sprintf("ret %d", rs.id), out, true)
+	w.op(fmt.Sprintf("ret %d", rs.id), out)
 	if err != nil {
 		w.r.Count("ret:error")
 	} else {
@@ -536,7 +604,7 @@ func (w *world) ret(rs *runState, err error, panicked bool) {
 
 func planStubs(s *scenario, m mgrSpec) int {
 	n := 0
-	for _, fid := range m.facs {
+	for _, fid := range m.facs() {
 		f := s.facs[fid]
 		if f.ok && len(f.members) == 1 && s.scripts[f.members[0]].name == 0 {
 			n++
@@ -602,7 +670,7 @@ func (w *world) checkWorkers() {
 
 func runScenario(r *hx.Run, seed uint64, idx int, sc *scenario) bool {
 	w := &world{r: r, sc: sc, idx: idx, seed: seed, lastName: map[int64]int{}, runOfGo: map[int64]int{}, worker: map[int64]*worker{},
-		byKey: map[[2]int]*worker{}, driving: map[int]*worker{}, configured: map[int]int{}, flags: map[string]bool{}}
+		byKey: map[[2]int]*worker{}, driving: map[int]*worker{}, configured: map[int]int{}, flags: map[string]bool{}, silent: sc.silent}
 	w.store = &store{w: w}
 	for _, h := range sc.hist {
 		k := driver.VulnerabilityKind
@@ -611,9 +679,11 @@ func runScenario(r *hx.Run, seed uint64, idx int, sc *scenario) bool {
 		}
 		w.store.ops = append([]storedOp{{kind: k, name: nameStr(h.name), fp: fpStr(h.fp)}}, w.store.ops...)
 	}
-	r.Op("reset", "ok", false)
-	for _, d := range sc.decls() {
-		r.Op(d, "ok", false)
+	if !sc.silent {
+		r.Op("reset", "ok", false)
+		for _, d := range sc.decls() {
+			r.Op(d, "ok", false)
+		}
 	}
 	old := runtime.GOMAXPROCS(sc.procs)
 	defer runtime.GOMAXPROCS(old)
@@ -628,7 +698,7 @@ func runScenario(r *hx.Run, seed uint64, idx int, sc *scenario) bool {
 	mgrs := make([]*updates.Manager, len(sc.mgrs))
 	for mi, m := range sc.mgrs {
 		facs := map[string]driver.UpdaterSetFactory{}
-		for _, fid := range m.facs {
+		for _, fid := range m.given {
 			f := sc.facs[fid]
 			facs[fmt.Sprintf("f%d", fid)] = driver.UpdaterSetFactoryFunc(func(context.Context) (driver.UpdaterSet, error) {
 				if !f.ok {
@@ -644,6 +714,20 @@ func runScenario(r *hx.Run, seed uint64, idx int, sc *scenario) bool {
 			})
 		}
 		opts := []updates.ManagerOption{updates.WithFactories(facs), updates.WithBatchSize(m.batch)}
+		if m.enabled != nil {
+			names := []string{}
+			for _, e := range m.enabled {
+				names = append(names, fmt.Sprintf("f%d", e))
+			}
+			opts = append(opts, updates.WithEnabled(names))
+		}
+		if m.oot >= 0 {
+			var us []driver.Updater
+			for _, i := range sc.facs[m.oot].members {
+				us = append(us, ups[i])
+			}
+			opts = append(opts, updates.WithOutOfTree(us))
+		}
 		if m.retention != 0 {
 			opts = append(opts, updates.WithGC(m.retention))
 		}
@@ -664,60 +748,109 @@ func runScenario(r *hx.Run, seed uint64, idx int, sc *scenario) bool {
 		}
 	}
 	hung := false
+	var tmu sync.Mutex
 	var timers []*time.Timer
+	start := func(rs *runState) {
+		ctx, cancel := context.WithCancel(context.WithValue(context.Background(), runKey{}, rs.id))
+		w.mu.Lock()
+		rs.cancel = cancel
+		rs.started = true
+		if rs.spec.plan.kind == "before" {
+			w.cancelLocked(rs)
+		}
+		w.mu.Unlock()
+		if rs.spec.plan.kind == "timer" {
+			t := time.AfterFunc(time.Duration(rs.spec.plan.n)*time.Microsecond, func() {
+				w.mu.Lock()
+				w.cancelLocked(rs)
+				w.mu.Unlock()
+			})
+			tmu.Lock()
+			timers = append(timers, t)
+			tmu.Unlock()
+		}
+		go func() {
+			defer close(rs.done)
+			w.mu.Lock()
+			w.runOfGo[hx.GoID()] = rs.id
+			w.mu.Unlock()
+			var err error
+			out := hx.Guard(func() string { err = mgrs[rs.spec.mgr].Run(ctx); return "" })
+			w.mu.Lock()
+			w.ret(rs, err, out == "panic")
+			w.mu.Unlock()
+		}()
+	}
+	// runs that begin while another run is inside store.GC (holding the GC lock)
+	w.gcHook = func(run int) {
+		for _, rs := range w.runs {
+			w.mu.Lock()
+			mine := rs.spec.startGC == run+1 && !rs.started
+			w.mu.Unlock()
+			if !mine {
+				continue
+			}
+			start(rs)
+			// keep collecting garbage until the new run's workers have been at the lock
+			deadline := time.Now().Add(2 * time.Second)
+			for time.Now().Before(deadline) {
+				w.mu.Lock()
+				n, fin := len(rs.workers), rs.returned
+				w.mu.Unlock()
+				if fin || n >= len(w.sc.configured(rs.mgr)) {
+					break
+				}
+				time.Sleep(50 * time.Microsecond)
+			}
+		}
+	}
 	for ph := 0; ph <= maxPhase && !hung; ph++ {
 		var cur []*runState
 		for _, rs := range w.runs {
 			if rs.spec.phase != ph {
 				continue
 			}
-			rs := rs
 			cur = append(cur, rs)
-			ctx, cancel := context.WithCancel(context.WithValue(context.Background(), runKey{}, rs.id))
-			rs.cancel = cancel
-			if rs.spec.plan.kind == "before" {
-				w.mu.Lock()
-				w.cancelLocked(rs)
-				w.mu.Unlock()
+			if rs.spec.startGC == 0 {
+				start(rs)
 			}
-			if rs.spec.plan.kind == "timer" {
-				timers = append(timers, time.AfterFunc(time.Duration(rs.spec.plan.n)*time.Microsecond, func() {
-					w.mu.Lock()
-					w.cancelLocked(rs)
-					w.mu.Unlock()
-				}))
-			}
-			go func() {
-				defer close(rs.done)
-				w.mu.Lock()
-				w.runOfGo[hx.GoID()] = rs.id
-				w.mu.Unlock()
-				var err error
-				out := hx.Guard(func() string { err = mgrs[rs.spec.mgr].Run(ctx); return "" })
-				w.mu.Lock()
-				w.ret(rs, err, out == "panic")
-				w.mu.Unlock()
-			}()
 		}
-		for _, rs := range cur {
-			select {
-			case <-rs.done:
-			case <-time.After(60 * time.Second):
+		// first the runs started here, then the ones they started
+		for pass := 0; pass < 2; pass++ {
+			for _, rs := range cur {
+				if (rs.spec.startGC != 0) != (pass == 1) {
+					continue
+				}
 				w.mu.Lock()
-				w.fail("", fmt.Sprintf("Run-did-not-return-within-60s run=%d in-flight=%d", rs.id, rs.active))
+				started := rs.started
 				w.mu.Unlock()
-				hung = true
+				if !started {
+					continue
+				}
+				select {
+				case <-rs.done:
+				case <-time.After(60 * time.Second):
+					w.mu.Lock()
+					w.fail("", fmt.Sprintf("Run-did-not-return-within-60s run=%d in-flight=%d", rs.id, rs.active))
+					w.mu.Unlock()
+					hung = true
+				}
+				rs.openGate()
 			}
-			rs.openGate()
 		}
 	}
+	tmu.Lock()
 	for _, t := range timers {
 		t.Stop()
 	}
+	tmu.Unlock()
 	for _, rs := range w.runs {
 		rs.openGate()
-		if rs.cancel != nil {
-			rs.cancel()
+		w.mu.Lock()
+		c := rs.cancel
+		w.mu.Unlock()
+		if c != nil {
+			c()
 		}
 	}
 	w.mu.Lock()
@@ -773,6 +906,10 @@ func genScenario(rnd *hx.Rand, r *hx.Run) *scenario {
 	for f := range sc.facs {
 		sc.facs[f] = facSpec{id: f, ok: true}
 	}
+	retention := 0
+	if rnd.Chance(1, 5) {
+		retention = 2 + rnd.Intn(5)
+	}
 	dups := rnd.Chance(3, 10)
 	usedIn := make([]map[int]bool, nfac)
 	for f := range usedIn {
@@ -790,8 +927,10 @@ func genScenario(rnd *hx.Rand, r *hx.Run) *scenario {
 				r.Count("gen:duplicate-name")
 			}
 		}
-		if rnd.Chance(1, 60) && !usedIn[f][1] {
-			s.name = 1 // an updater called "garbage-collection"
+		if retention == 0 && rnd.Chance(1, 60) && !usedIn[f][1] {
+			// an updater called "garbage-collection"; with GC enabled the name collides with the
+			// manager's own lock (finding gc-lock-name-collision, replayed by gcCollisionWitness)
+			s.name = 1
 		}
 		usedIn[f][s.name] = true
 		switch c := rnd.Intn(10); {
@@ -900,9 +1039,27 @@ func genScenario(rnd *hx.Rand, r *hx.Run) *scenario {
 	for i := range allFacs {
 		allFacs[i] = i
 	}
-	m := mgrSpec{batch: batch, facs: allFacs}
-	if rnd.Chance(1, 5) {
-		m.retention = 2 + rnd.Intn(5)
+	m := mgrSpec{batch: batch, given: allFacs, oot: -1, retention: retention}
+	if rnd.Chance(1, 6) && nfac > 0 {
+		// one ordinary factory is handed over through WithOutOfTree instead of WithFactories
+		m.oot = rnd.Intn(nfac)
+		m.given = nil
+		for _, f := range allFacs {
+			if f != m.oot {
+				m.given = append(m.given, f)
+			}
+		}
+		r.Count("gen:out-of-tree")
+	}
+	if rnd.Chance(1, 6) {
+		// WithEnabled: only a subset of the factories takes part
+		m.enabled = []int{}
+		for _, f := range m.given {
+			if rnd.Chance(2, 3) {
+				m.enabled = append(m.enabled, f)
+			}
+		}
+		r.Count("gen:with-enabled")
 	}
 	sc.mgrs = []mgrSpec{m}
 	mode := rnd.Intn(10)
@@ -1007,7 +1164,7 @@ func fixedScenarios() []*scenario {
 		for _, s := range ss {
 			f.members = append(f.members, s.inst)
 		}
-		return &scenario{scripts: ss, facs: []facSpec{f}, hist: hist, mgrs: []mgrSpec{{batch: batch, facs: []int{0}}}, runs: runs, procs: 4}
+		return &scenario{scripts: ss, facs: []facSpec{f}, hist: hist, mgrs: []mgrSpec{{batch: batch, given: []int{0}, oot: -1}}, runs: runs, procs: 4}
 	}
 	var out []*scenario
 	// fingerprint round trip: the second run sees the fingerprint the first stored
@@ -1033,6 +1190,16 @@ func fixedScenarios() []*scenario {
 	k0 := ok(0, 2, 'p', 3, 1)
 	k0.gate = true
 	out = append(out, one([]*script{k0, ok(1, 3, 'p', 3, 1), ok(2, 4, 'p', 3, 1)}, nil, 1, []runSpec{{phase: 0, plan: cancelPlan{kind: "timer", n: 300}}}))
+	// witness of finding gc-lock-name-collision (oracle only: the GC phase is not in the machine):
+	// run 1 starts while run 0 holds the "garbage-collection" lock inside store.GC; its
+	// updater of that name finds the lock taken and is skipped although no updater of
+	// that name is running.
+	gc := ok(0, 1, 'p', 3, 1)
+	gc.fmode = 3
+	w := one([]*script{gc, ok(1, 3, 'p', 3, 1)}, nil, 2, []runSpec{{phase: 0}, {phase: 0, startGC: 1}})
+	w.mgrs[0].retention = 2
+	w.silent = true
+	out = append(out, w)
 	return out
 }
 
@@ -1062,7 +1229,7 @@ func Run(cfg hx.Config) error {
 		idx++
 	}
 	time.Sleep(20 * time.Millisecond)
-	if after := runtime.NumGoroutine(); after > before+4 && r.Fails == 0 {
+	if after := runtime.NumGoroutine(); after > before+4 {
 		time.Sleep(300 * time.Millisecond)
 		if after = runtime.NumGoroutine(); after > before+4 {
 			r.Fail("", fmt.Sprintf("goroutines-left-behind-by-Run before=%d after=%d", before, after))
